@@ -850,7 +850,9 @@ def r4c_summaries_are_a_transitive_closure(ctx):
                     t, dd = vals.get("transitive_" + kind, ""), vals.get("direct_" + kind, "")
                     core_t = re.sub(r"^(clone_ids\()+", "", t)
                     core_d = re.sub(r"^(clone_ids\()+", "", dd)
-                    if core_t.split(",")[0] == core_d.split(",")[0] and ("direct_" + kind) in (t + dd):
+                    src_t = re.findall(r"\.(direct_[a-z_]+)", t)
+                    src_d = re.findall(r"\.(direct_[a-z_]+)", dd)
+                    if src_t and set(src_t) == {"direct_" + kind} and set(src_d) == {"direct_" + kind}:
                         ctx.ok("closure|init|%s" % kind, ini.where(b), "transitive_%s starts as a copy of direct_%s" % (kind, kind))
                     else:
                         ctx.bad("closure|init|%s" % kind, ini.where(b), "transitive_%s is not initialised from direct_%s (%s)" % (kind, kind, t[:60]))
@@ -1355,7 +1357,101 @@ def r2b_no_trap_verdicts_rest_on_stable_types(ctx):
                 else:
                     ctx.bad("settled|collector|redeclaration-recorded", col.where(), "%s does not record a name that is declared a second time (a redeclaration may change the type)" % cname)
 
-RULES = [("C03-R1", r1_plan_only_from_pure), ("C03-R1b", r1b_capture_write_is_an_effect), ("C03-R2", r2_effect_tables), ("C03-R2b", r2b_no_trap_verdicts_rest_on_stable_types), ("C03-R3", r3_plan_consulted), ("C03-R3b", r3b_plan_queries_read_their_own_table), ("C03-R4", r4_dataflow_shape), ("C03-R4b", r4b_reads_and_writes_reach_the_summaries), ("C03-R4c", r4c_summaries_are_a_transitive_closure), ("C03-R4d", r4d_bitset_arithmetic_agrees), ("C03-R4e", r4e_fixpoint_flags_are_sticky), ("C03-R5", r5_loop_cfg_shape)]
+def r4f_a_set_is_deduplicated_against_itself(ctx):
+    """The fact tables are sets kept in vectors: `if !v.contains(x) { v.push(x) }`.  The membership test and the push must
+    name the same vector and the same item.  Tested against a sibling (a write recorded only if the local was not *read*
+    before), an element that is already in the other set is silently dropped - a function that has read a captured variable
+    before it assigns to it loses the capture write, its calls look effect-free and are pruned."""
+    n = 0
+    for fid, fn in sorted(ctx.lib.fns.items()):
+        if not (fn.file.startswith("src/analysis/") or fn.file == "src/resolver.rs"):
+            continue
+        for c in fn.calls():
+            if not (c.callee or "").endswith("::push") or len(c.args) < 2:
+                continue
+            for S, al in fn.constraints(c.block):
+                si = fn.switch_info(S)
+                if not (si["kind"] == "call" and (si["callee"] or "").endswith("::contains") and set(al) == {0}):
+                    continue
+                n += 1
+                ctx.touch(fn)
+                pv, cv = sh(ne(fn.deep(c.args[0]))).replace("&mut ", ""), sh(ne(fn.deep(si["call"]["args"][0]))).replace("&mut ", "")
+                pi, ci = sh(ne(fn.deep(c.args[1]))), sh(ne(fn.deep(si["call"]["args"][1])))
+                short = parent_fn(fid).split("::")[-1]
+                ordn = sum(1 for r in ctx.records if r["rule"] == ctx.rule and r["instance"].startswith("dedupe|%s#" % short))
+                if pv == cv and pi == ci:
+                    ctx.ok("dedupe|%s#%d" % (short, ordn + 1), fn.where(c.block), "tests and extends %s" % pv[:50])
+                elif pv != cv:
+                    ctx.bad("dedupe|%s|other-set|%s" % (short, cv.split(".")[-1][:30]), fn.where(c.block), "%s pushes into `%s` when the item is missing from `%s`: an item that is already in the other set is never recorded" % (short, pv[:60], cv[:60]))
+                else:
+                    ctx.bad("dedupe|%s|other-item" % short, fn.where(c.block), "%s tests `%s` for membership but pushes `%s`" % (short, ci[:40], pi[:40]))
+    ctx.floor("deduplicating pushes of the analyses", n, 8)
+
+
+def r5b_scope_kills_sit_where_the_scope_ends(ctx):
+    """A block's variables die where the block *ends*: the kill set of a lexical scope is attached to the basic block in which
+    lowering the nested block left the cursor - not to the one in which it started.  For a straight-line block the two are
+    the same; once the nested block contains an `if` or a loop they differ, and kills attached at the start declare the
+    block's variables dead at the end of its first basic block, so an assignment read only after that control flow is
+    pruned."""
+    n = 0
+    for fid, fn in sorted(ctx.lib.fns.items()):
+        if fn.file != "src/analysis/cfg.rs":
+            continue
+        for c in fn.calls():
+            if not (c.callee or "").endswith("::add_scope_kills") or len(c.args) < 3:
+                continue
+            where = sh(ne(fn.deep(c.args[1], 18)))
+            scope = sh(ne(fn.deep(c.args[2], 18)))
+            m = re.search(r"scope_of_block\([^,]+,([^)]+)\)", scope)
+            if not m:
+                continue        # kill_scopes_through: kills for a jump out of several scopes, placed at the jump (R5)
+            n += 1
+            ctx.touch(fn)
+            ast_block = m.group(1)
+            key = "scope-kill|%s" % ast_block.split("@")[-1]
+            if where.startswith("lower_block(") and ("," + ast_block + ",") in where.replace(" ", "")[:200]:
+                ctx.ok(key, fn.where(c.block), "kills of %s attached to the block its lowering ended in" % ast_block[-24:])
+            else:
+                ctx.bad(key + "|at-start", fn.where(c.block), "the variables of %s are killed in `%s`, which is not the block in which lowering %s ended: with control flow inside the nested block they are declared dead too early and a later assignment to one of them is pruned" % (ast_block[-24:], where[:50], ast_block[-24:]))
+    ctx.floor("scope-exit kill placements", n, 4)
+
+
+def r4g_reads_and_writes_are_each_walked(ctx):
+    """The passes that treat a statement's reads and writes alike (the last statement that references a local, the liveness
+    transfer, the block facts) have one loop per set.  Two loops over the same set and none over its sibling is the copy-paste
+    slip that type-checks: with the writes never walked, a declaration that is only written afterwards looks unreferenced, its
+    `make` is pruned, and the later write meets a variable that does not exist."""
+    pairs = (("reads", "writes"), ("transitive_capture_reads", "transitive_capture_writes"), ("direct_capture_reads", "direct_capture_writes"))
+    n = 0
+    for fid, fn in sorted(ctx.lib.fns.items()):
+        if not fn.file.startswith("src/analysis/") or "{closure" in fid:
+            continue
+        its = []
+        for c in fn.calls():
+            if (c.callee or "").split("::")[-1] in ("into_iter", "iter") and c.args:
+                t = sh(ne(fn.deep(c.args[0], 8)))
+                m = re.search(r"\.(reads|writes|direct_capture_reads|direct_capture_writes|transitive_capture_reads|transitive_capture_writes)\b\)*$", t)
+                if m:
+                    its.append(m.group(1))
+        if not its:
+            continue
+        short = fid.split("::")[-1]
+        for a, b in pairs:
+            ca, cb = its.count(a), its.count(b)
+            if ca + cb == 0:
+                continue
+            n += 1
+            ctx.touch(fn)
+            if (ca >= 2 and cb == 0) or (cb >= 2 and ca == 0):
+                twice, never = (a, b) if ca >= 2 else (b, a)
+                ctx.bad("walks|%s|%s-twice" % (short, twice), fn.where(), "%s walks `%s` twice and `%s` never: what it computes ignores every %s (a declaration that is only written later is taken for unreferenced and pruned; the write then panics on a missing variable)" % (short, twice, never, never.replace("_", " ")))
+            else:
+                ctx.ok("walks|%s|%s/%s" % (short, a, b), fn.where(), "%d/%d" % (ca, cb))
+    ctx.floor("read/write walks in the analyses", n, 5)
+
+
+RULES = [("C03-R1", r1_plan_only_from_pure), ("C03-R1b", r1b_capture_write_is_an_effect), ("C03-R2", r2_effect_tables), ("C03-R2b", r2b_no_trap_verdicts_rest_on_stable_types), ("C03-R3", r3_plan_consulted), ("C03-R3b", r3b_plan_queries_read_their_own_table), ("C03-R4", r4_dataflow_shape), ("C03-R4b", r4b_reads_and_writes_reach_the_summaries), ("C03-R4c", r4c_summaries_are_a_transitive_closure), ("C03-R4d", r4d_bitset_arithmetic_agrees), ("C03-R4e", r4e_fixpoint_flags_are_sticky), ("C03-R4f", r4f_a_set_is_deduplicated_against_itself), ("C03-R4g", r4g_reads_and_writes_are_each_walked), ("C03-R5", r5_loop_cfg_shape), ("C03-R5b", r5b_scope_kills_sit_where_the_scope_ends)]
 
 EXPLANATION = (
     "R1: in build_optimization_plan every push into the removable sets is edge-dominated by the test that justifies it "
